@@ -857,6 +857,7 @@ class TruncOp(IntegerConversionOpOverflow):
             res_t.element_type if isa(res_t := self.res.type, VectorType) else res_t
         )
 
+        super().verify(verify_nested_ops)
         assert isa(arg_type, IntegerType)
         assert isa(res_type, IntegerType)
 
@@ -864,7 +865,6 @@ class TruncOp(IntegerConversionOpOverflow):
             raise VerifyException(
                 f"invalid cast opcode for cast from {arg_type} to {res_type}"
             )
-        super().verify(verify_nested_ops)
 
 
 @irdl_op_definition
@@ -879,13 +879,13 @@ class ZExtOp(IntegerConversionOpNNeg):
             res_t.element_type if isa(res_t := self.res.type, VectorType) else res_t
         )
 
+        super().verify(verify_nested_ops)
         assert isa(arg_type, IntegerType)
         assert isa(res_type, IntegerType)
         if arg_type.bitwidth >= res_type.bitwidth:
             raise VerifyException(
                 f"invalid cast opcode for cast from {arg_type} to {res_type}"
             )
-        super().verify(verify_nested_ops)
 
 
 @irdl_op_definition
@@ -900,13 +900,13 @@ class SExtOp(IntegerConversionOp):
             res_t.element_type if isa(res_t := self.res.type, VectorType) else res_t
         )
 
+        super().verify(verify_nested_ops)
         assert isa(arg_type, IntegerType)
         assert isa(res_type, IntegerType)
         if arg_type.bitwidth >= res_type.bitwidth:
             raise VerifyException(
                 f"invalid cast opcode for cast from {arg_type} to {res_type}"
             )
-        super().verify(verify_nested_ops)
 
 
 class ICmpPredicateFlag(StrEnum):
